@@ -241,6 +241,19 @@ GH = ["http://example.com/p", "example.com", "//example.com", "https://User:Pw@E
       "example.com/http://other.org/", "http://a.com@evil.org/", "x//y.com", "http:///p", "EXAMPLE.COM.", "http://a.com:99999/"]
 
 
+def _stems_enum(acc, shard, nshards, seed, tier):
+    idx = 0
+    for pre, base, tail in itertools.product(["", "www.", "fr.", "fr-fr.", "amp-"], LABELS_BASE + ["github.io", "s3.amazonaws.com"], ["", "/", "/a/b?x=1#f", "/index.html?utm_source=x"]):
+        for variant, kws in STEM_KW.items():
+            for kw in kws:
+                for sa in (False, True):
+                    idx += 1
+                    if idx % nshards != shard:
+                        continue
+                    case = {"kind": "stems", "url": "http://" + pre + base + tail, "variant": variant, "kwargs": kw, "suffix_aware": sa}
+                    acc.check(case, _nt, _cl(case) + [variant] if idx % 19 == 0 else ())
+
+
 def _gh_enum(acc, shard, nshards, seed, tier):
     for i, u in enumerate(GH):
         if i % nshards == shard:
@@ -261,6 +274,8 @@ def campaigns(tier, seed):
                  bounds="normalize-oriented URLs with language labels, multi-label suffixes, padding, control characters, redirect wrappers x options"),
         Campaign("stem-variants", hyp_campaign(_stems_strategy, lambda v: v, _nt, lambda c: _cl(c) + [c["variant"]], examples=(700, 15000), lazy_nontrivial=True), "hypothesis",
                  bounds="same URLs x 3 stem variants x their option sets x suffix_aware"),
+        Campaign("stem-variants-panel", _stems_enum, "enumeration", exhaustive=True,
+                 bounds="5 label prefixes x %d base hosts (incl. bare public suffixes) x 4 tails x every variant option set x suffix_aware" % (len(LABELS_BASE) + 2)),
         Campaign("get_hostname-panel", _gh_enum, "enumeration", exhaustive=True, bounds="%d strings" % len(GH)),
         Campaign("get_hostname", hyp_campaign(_gh_strategy, lambda v: v, _nt, _cl, examples=(300, 6000), lazy_nontrivial=True), "hypothesis",
                  bounds="grammar URLs, special hosts, padded / control-char inputs"),
